@@ -46,6 +46,7 @@ Ev == [ev |-> "frag", alg |-> "ff", n |-> Len(fs), fs |-> [j \in 1..Len(fs) |-> 
        shape |-> [j \in 1..Len(lines) |-> <<lines[j][1] - 1, lines[j][2] - lines[j][1] + 1>>], res |-> lines, status |-> "ok"]
 AllOk(cs) == \A j \in 1..Len(cs) : cs[j].ok \/ (PrintT(<<"FAILED", cs[j].p, cs[j].c, cs[j].r>>) /\ FALSE)
 PropFrag == pc = "done" => AllOk(Judge_frag(Ev))
-Terminates == <>(pc = "done" \/ pc = "build")
+\* once a call has begun it returns (checked under weak fairness of the step actions: the algorithms terminate)
+Terminates == (pc # "build") ~> (pc = "done")
 Emit == pc = "done" => PrintT(<<"REPLAY", ToJson([k |-> "frag", alg |-> "ff", fs |-> Ev.fs, lws |-> lws, scale |-> 1, pen |-> DefaultPen])>>)
 =============================================================================
